@@ -13,7 +13,10 @@ PROFILES = ['debug']
 THEOREMS = ['C08_refuted', 'C08_refuted_any_entry', 'C08_refuted_any_entry_stream', 'C08_refuted_any_entry_star',
             'C08_fixed_memo_leak', 'C08_fixed_disjunct_attrs', 'C08_fixed_memo_pred', 'C08_fixed_compound_pred',
             'C08_fixed_any_elem', 'C08_fixed_self_reference', 'C08_fixed_examined_alternative', 'C08_fixed_named_disjunct',
-            'C08_fixed_stale_index', 'C08_fixed_undefined_required']
+            'C08_fixed_stale_index', 'C08_fixed_undefined_required',
+            'C08_layer_i_machine_refines_recursive_checker', 'C08_layer_ii_ok', 'C08_layer_ii_fail', 'C08_accept_sound',
+            'C08_reject_sound', 'C08_except_known', 'C08_full_outside_known_finding', 'C08_conforming_accepted', 'C08_verdict_wf',
+            'C08_normalize_preserves_conformance', 'C08_except_known_as_written', 'C08_full_outside_known_finding_as_written']
 ALLOWED_AXIOMS = []
 CASE_TIMEOUT = 300
 ROOT = os.path.dirname(os.path.dirname(os.path.abspath(__file__)))
@@ -705,24 +708,47 @@ def small_leaf_chks():
     return out
 
 
+def _pred_for(rng, kind):
+    """a predicate that objects of that kind can satisfy (mostly), rarely an unsatisfiable or foreign one"""
+    r = rng.random()
+    if r < 0.55:
+        return None
+    if r < 0.60:
+        return ('0',)
+    if r < 0.66:
+        return rng.choice([('N', (A_,)), ('I', (5,)), ('L', 2), ('1',)])
+    if kind == 'm':
+        return rng.choice([('N', (A_,)), ('N', (A_, B_)), ('N', (B_,))])
+    if kind == 'i':
+        return rng.choice([('I', (5,)), ('I', (5, 7))])
+    if kind in 'AH':
+        return rng.choice([('L', 2), ('1',)])
+    return ('1',)
+
+
 def gen_chk(rng, depth, names, allow_named=True):
     """random check of bounded depth over the small alphabet"""
     r = rng.random()
-    ind = rng.choice(['', '', '', '!', '~'])
-    p = rng.choice([None, None, None, ('N', (A_,)), ('N', (B_,)), ('0',), ('1',), ('I', (5,)), ('L', 2)])
+    ind = rng.choice(['', '', '', '', '!', '~'])
     if depth <= 0 or r < 0.25:
         t = rng.choice([('_',), ('p', 'i'), ('p', 'm'), ('p', 'n'), ('p', 'b'), ('p', 's')])
-        return rep(t, p, ind)
+        kind = t[1] if t[0] == 'p' else rng.choice('mi')
+        return rep(t, _pred_for(rng, kind), ind)
     if allow_named and names and r < 0.38:
         return ('@', rng.choice(names))
     k = rng.choice('AAHHDDDOOOS')
+    p = _pred_for(rng, k)
     sub = lambda: gen_chk(rng, depth - 1, names, allow_named)
     if k == 'A':
-        return rep(('A', sub(), rng.choice([None, None, 1, 2])), p, ind)
+        size = rng.choice([None, None, 1, 2])
+        if p == ('L', 2) and size == 1:
+            size = 2
+        return rep(('A', sub(), size), p, ind)
     if k == 'H':
-        return rep(('H', tuple(sub() for _ in range(rng.randrange(0, 3)))), p, ind)
+        n = 2 if p == ('L', 2) else rng.randrange(0, 3)
+        return rep(('H', tuple(sub() for _ in range(n))), p, ind)
     if k == 'O':
-        return rep(('O', tuple(sub() for _ in range(rng.randrange(1, 4)))), p, ind)
+        return rep(('O', tuple(sub() for _ in range(rng.randrange(1, 4)))), p if rng.random() < 0.3 else None, ind)
     keys = rng.sample([K_, L_, b'M'], rng.randrange(0, 3))
     ents = tuple((key, sub(), rng.choice('++?-')) for key in keys)
     if k == 'S':
@@ -748,12 +774,16 @@ def witness(rng, octx, tctx, c, depth, fresh):
         o = rng.choice(ATOMS)
         if p and p[0] == 'N' and p[1]:
             o = ('m', p[1][0])
+        elif p and p[0] == 'I' and p[1]:
+            o = ('i', p[1][0])
+        elif p and p[0] == 'L':
+            o = ('A', tuple(rng.choice(ATOMS) for _ in range(p[1])))
     elif k == 'p':
         o = {'i': ('i', 5), 'm': ('m', A_), 'n': ('n',), 'b': ('b', True), 's': ('s', b's'), 'q': ('q', 1, 2), 'c': ('c', b'c')}[t[1]]
         if p and p[0] == 'N' and p[1]:
             o = ('m', p[1][0])
     elif k == 'A':
-        n = t[2] if t[2] is not None else rng.randrange(0, 3)
+        n = t[2] if t[2] is not None else (p[1] if p and p[0] == 'L' else rng.randrange(0, 3))
         o = ('A', tuple(witness(rng, octx, tctx, t[1], depth - 1, fresh) for _ in range(n)))
     elif k == 'H':
         o = ('A', tuple(witness(rng, octx, tctx, x, depth - 1, fresh) for x in t[1]))
@@ -901,13 +931,13 @@ def random_case(rng, mode='v', maxdepth=3):
     obj = witness(rng, octx, tctx, chk, 4, fresh)
     # back-edges: redirect some references inside the context to existing ids
     r = rng.random()
-    if r < 0.5:
+    if r < 0.3:
         for _ in range(rng.randrange(1, 3)):
             obj = mutate_obj(rng, obj, octx)
             if octx and rng.random() < 0.4:
                 key = rng.choice(list(octx.keys()))
                 octx[key] = mutate_obj(rng, octx[key], octx)
-    elif r < 0.6:
+    elif r < 0.35:
         obj = rng.choice(small_objects())
     return mk_case(mode, octx, tctx, chk, obj)
 
@@ -975,6 +1005,13 @@ TRUSTED = ['model of pdf_type_check.rs in coq/Model/TypeCheck.v (hand transcript
            'the Python reading of the specification in props/c08.py (cross-checked against Coq conforms_dec on every case)']
 ASSUMPTIONS = ['specifications are closed (every name defined) and have no empty disjunction',
                'objects compare structurally (LocatedVal ignores locations; streams built by the harness have start = 0)']
-LEVEL_TEXT = 'see Properties/C08.v'
-LEVEL_NOTE = 'trusted: Coq kernel, hand transcription Model/TypeCheck.v, extraction + drv.ml, harness c08.rs + tcspec.rs'
-TECHNIQUE = 'Coq proof + three-way differential run (implementation, model, declarative specification)'
+LEVEL_TEXT = ('Coq theorems over all specifications and all object graphs (cyclic included): check_type = Accept <-> the object conforms, '
+              'for every well-formed specification (wf_univ: names defined, no empty disjunction), in the reading conforms_skip = greatest-fixed-point '
+              'declarative semantics with the one open finding built in (dictionary/stream entries of type Any are not checked); the full reading '
+              'conforms when no such entry carries a predicate/indirection (C08_full_outside_known_finding); acceptance and rejection are sound without '
+              'any side condition; proof in two refinement layers (work-list machine = recursive memoising checker = declarative reading); ten classes '
+              'of the pinned tree refuted by witnesses and repaired in pdf_type_check.rs, their witnesses now agree (C08_fixed_*); model tied to the '
+              'implementation by a three-way differential run (implementation, model, Python + Coq conforms_dec)')
+LEVEL_NOTE = ('trusted: Coq kernel, hand transcription Model/TypeCheck.v (validated by the correspondence run), extraction + drv.ml, harness c08.rs + tcspec.rs; '
+              'normalize_check is proved to preserve conformance (C08_normalize_preserves_conformance), so the theorems hold for the specification as written; predicates are compared by identity')
+TECHNIQUE = 'Coq: simulation of the work-list machine by a recursive memoising checker (layer i), coinduction-up-to-assumptions + constructive refutations for the checker (layer ii), lexicographic measure for termination; three-way differential run'
